@@ -76,7 +76,7 @@ def fmt_cell(st, syms=None):
 # ---------------------------------------------------------------------------
 # decoder
 
-DEC = "minicbor::decode::decoder::Decoder::<'b>::"
+DEC = "minicbor::decode::decoder::Decoder::<'_>::"
 INPUT_PRIMS = ('read', 'read_array', 'read_slice', 'current', 'peek')
 EOI = 'minicbor::decode::error::Error::end_of_input'
 
